@@ -241,6 +241,29 @@ WHERE batches.user = %s AND batches.id = %s AND batch_updates.update_id = %s AND
     def unschedule_job(self, batch_id, job_id, attempt_id, instance, end_time, reason="cancelled"):
         return self.call("CALL unschedule_job(%s, %s, %s, %s, %s, %s);", (batch_id, job_id, attempt_id, instance, end_time, reason))
 
+    def add_attempt_resources(self, batch_id, job_id, attempt_id, quantity, name="compute/n1-preemptible/1"):
+        import batch.driver.job as dj
+
+        class _R:
+            def __init__(self, rid):
+                self.resource_id = rid
+                self.deduped_resource_id = rid
+
+        ids = {r["resource"]: _R(r["resource_id"]) for r in self.rows("resources")}
+        app = dict(self.app)
+        app["resource_name_to_id"] = ids
+        return self.run(dj.add_attempt_resources(app, self.db, batch_id, job_id, attempt_id, [{"name": name, "quantity": quantity}]))
+
+    def clean_staging(self):
+        import batch.driver.main as dm
+
+        return self.run(dm.delete_committed_job_groups_inst_coll_staging_records(self.db))
+
+    def clean_cancellable(self):
+        import batch.driver.main as dm
+
+        return self.run(dm.delete_prev_cancelled_job_group_cancellable_resources_records(self.db))
+
     # ---- inspection ----------------------------------------------------------------------------------------------------
     def rows(self, table, **eq):
         return self.eng.rows(table, **eq)
